@@ -548,16 +548,40 @@ pub fn run(cfg: &Config) -> (i32, J) {
     };
     // Scenarios whose size parameter is a number of levels, not bytes.
     let specials: [(&str, usize, usize, &str); 3] = [
-        ("alias-fanout", 200, 800, "one anchored sequence of N items aliased N times"),
+        ("alias-fanout", 150, 600, "one anchored sequence of N items aliased N times"),
         ("alias-expansion", 3, 5, "work must grow like the text, not like the expanded tree"),
-        ("nested-complex-keys", 500, 2000, "a chain of mappings used as mapping keys: inserting each key hashes its whole subtree"),
+        ("nested-complex-keys", 300, 1200, "a chain of mappings used as mapping keys: inserting each key hashes its whole subtree"),
     ];
     let mut alias_rows = Vec::new();
     let mut known_hit = Vec::new();
-    for (family, l1, l2, what) in specials {
+    // measure all level-scaled scenarios in parallel first
+    let special_jobs: Vec<(usize, &str)> = specials.iter().enumerate().flat_map(|(k, _)| APIS.iter().map(move |a| (k, *a))).collect();
+    let special_jobs = Arc::new(special_jobs);
+    let special_next = Arc::new(AtomicUsize::new(0));
+    let special_out: Arc<Mutex<Vec<(usize, String, Result<(u64, u64), String>)>>> = Arc::new(Mutex::new(Vec::new()));
+    let spec_params: Arc<Vec<(String, usize, usize)>> = Arc::new(specials.iter().map(|s| (s.0.to_string(), s.1, s.2)).collect());
+    let mut hs = Vec::new();
+    for _ in 0..cfg.jobs.min(special_jobs.len()) {
+        let (jobs, next, out, params) = (special_jobs.clone(), special_next.clone(), special_out.clone(), spec_params.clone());
+        hs.push(std::thread::spawn(move || loop {
+            let k = next.fetch_add(1, Ordering::SeqCst);
+            if k >= jobs.len() {
+                break;
+            }
+            let (si, api) = jobs[k];
+            let (fam, l1, l2) = &params[si];
+            let r = (|| -> Result<(u64, u64), String> { Ok((measure(fam, *l1, api)?.0, measure(fam, *l2, api)?.0)) })();
+            out.lock().unwrap().push((si, api.to_string(), r));
+        }));
+    }
+    for h in hs {
+        let _ = h.join();
+    }
+    let special_out = special_out.lock().unwrap().clone();
+    for (si, (family, l1, l2, what)) in specials.into_iter().enumerate() {
         let byte_growth = render(family, l2).len() as f64 / render(family, l1).len() as f64;
         for api in APIS {
-            let r = (|| -> Result<(u64, u64), String> { Ok((measure(family, l1, api)?.0, measure(family, l2, api)?.0)) })();
+            let r = special_out.iter().find(|x| x.0 == si && x.1 == api).map(|x| x.2.clone()).unwrap_or_else(|| Err("missing measurement".into()));
             let (i1, i2) = match r {
                 Ok(v) => v,
                 Err(e) => {
